@@ -651,6 +651,28 @@ theorem hasTriple_of_line (ls : List (FLine × Bool)) (hwf : ∀ x ∈ ls, x.1.W
   rw [lines_fileText ls hwf]
   exact List.mem_append_left _ (List.mem_map.mpr ⟨_, hm, rfl⟩)
 
+/-- the triples a file of well-formed lines denotes are exactly those of its secret lines -/
+theorem hasTriple_fileText_iff (ls : List (FLine × Bool)) (hwf : ∀ x ∈ ls, x.1.WF) (tr : Triple) :
+    HasTriple (fileText ls) tr ↔ ∃ hc hv crlf, (FLine.key tr hc hv, crlf) ∈ ls := by
+  constructor
+  · rintro ⟨l, hl, hden⟩
+    rw [lines_fileText ls hwf] at hl
+    rcases List.mem_append.mp hl with hl | hl
+    · obtain ⟨x, hx, rfl⟩ := List.mem_map.mp hl
+      have w := hwf x hx
+      obtain ⟨fl, b⟩ := x
+      cases fl with
+      | key tr' hc hv =>
+        have : tr = tr' := denotes_unique hden ⟨hc, hv, w⟩
+        subst this
+        exact ⟨hc, hv, b, hx⟩
+      | other s => exact absurd (looks_of_denotes hden) w.2.2
+    · simp only [List.mem_singleton] at hl
+      subst hl
+      exact absurd (looks_of_denotes hden) not_looks_nil
+  · rintro ⟨hc, hv, crlf, hm⟩
+    exact hasTriple_of_line ls hwf tr hc hv crlf hm
+
 /-- **`OnlySecret` IS C09's consistency**: in a key-log file that is consistent for the client random (one secret per
     label), a line `label cr secret` is the only secret under that label and client random. -/
 theorem onlySecret_of_consistent (ls : List (FLine × Bool)) (hwf : ∀ x ∈ ls, x.1.WF) (cr : List Nat)
